@@ -51,7 +51,7 @@ VARIANTS = {
     "C08": [("refilter", 0.5), ("mixed", 0.3), ("monitor", 0.2)],
     "C10": [("overflow", 1.0)],
     "C11": [("close", 0.5), ("monitor", 0.15), ("overflow", 0.15), ("ctl:shutdown", 0.4), ("ctl:listfail", 0.25)],
-    "C12": [("ctl:shutdown", 0.5), ("close", 0.2), ("mixed", 0.15), ("overflow", 0.15), ("ctl:listfail", 0.25)],
+    "C12": [("ctl:shutdown", 0.5), ("close", 0.2), ("mixed", 0.15), ("overflow", 0.15), ("ctl:listfail", 0.25), ("ctl:watch", 0.3)],   # ctl:watch: Close() after watch reconnects (R7-C12-1)
     "C13": [("ctl:timing", 1.0)],
     "C14": [("ctl:listfail", 0.7), ("ctl:watch", 0.3)],
     "C15": [("cachelin:readers", 1.0)],
